@@ -8,7 +8,8 @@
      transports, one tools/call per case; records what the handler saw and what the client received.
   3. TLC on spec/TypedToolMon.tla judges every recorded outcome (verdict) and compares it with the
      code-shaped expectation (drift).
-quick: all output cases, all reflected-type cases with cache=false, every valid explicit-schema case,
+quick: all output, reflected-type, struct-with-explicit-schema and default-interaction cases (every
+SchemaCache arrangement), every valid explicit-schema case,
 every boundary case (<=1 member off the valid base, or <=1 member present) and a seeded sample of the
 rest; thorough: the complete family.
 """
@@ -25,6 +26,8 @@ BASE = {"in": ("min", "member", "absent", "absent", "absent"),
 
 
 def deviations(c):
+    if c["kind"] in ("xin", "sin") or c.get("ty") == "InC":
+        return 0  # small families, always run completely
     base = BASE["in"] if c["kind"] == "in" else BASE[c["ty"]]
     if len(c["cls"]) != len(base):
         return 1  # non-object arguments
@@ -36,11 +39,17 @@ def present(c):
     return sum(1 for a in c["cls"] if a != "absent")
 
 
+def cache_tag(c):
+    return "" if c.get("cache", "none") == "none" else ",cache=" + c["cache"]
+
+
 def in_sig(c, o):
     got = "ran" if o["ran"] else ("proto-error" if o["proto"] else ("error-result" if o["isError"] else "success-not-run"))
     if o["ran"] and (o["isError"] or o["proto"]):
         got = "ran+error"
-    return "schema=%s%s:args=%s:%s" % (c["vid"], ",cache" if c["cache"] else "", "/".join(c["cls"]), got)
+    name = c["vid"] if c["kind"] in ("in", "rin") else "%s.%s" % (c["kind"], c["vid"])
+    args = jtext(c["args"]) if c["kind"] == "xin" else "/".join(c["cls"])
+    return "schema=%s%s:args=%s:%s" % (name, cache_tag(c), args, got)
 
 
 def jtext(x):
@@ -65,7 +74,7 @@ def out_sig(c, o):
         # one abstract failing class: Out = any, handler returns nil, output schema declared
         return "out:schema=declared:okind=any:out=nil:%s" % got
     return "out:schema=%s%s:okind=%s%s:out=%s%s:%s" % (
-        c["sid"], ",cache" if c["cache"] else "", c["okind"], ",nil" if c["nilform"] else "", jtext(c["out"]),
+        c["sid"], cache_tag(c), c["okind"], ",nil" if c["nilform"] else "", jtext(c["out"]),
         ",own-content" if c["content"] else "", got)
 
 
@@ -94,8 +103,8 @@ def run(tier, seed, replay):
     v = vlib.Verdict(PID, tier, seed)
     v.assumptions = [
         "defaults: absent, non-required properties only, recursively; an absent optional object whose descendants "
-        "have defaults is materialised (DESIGN.md C16); the family contains no default under an absent optional "
-        "object with required members and no default under a required object",
+        "have defaults is materialised (DESIGN.md C16) and the result must be valid (objNest); the family contains "
+        "no default under a required object",
         "arguments `null` are outside the family (the SDK treats them as absent arguments)",
         "a client cannot tell structuredContent null from absent: both are read as null",
         "Go nil forms stand for the value Go gives them: nil map = {}, nil *T = zero T (documented), nil slice = null; "
@@ -113,12 +122,12 @@ def run(tier, seed, replay):
         raise vlib.MachineryError("TypedTool design check failed: " + (res.violation or res.stdout[-3000:]))
     counts = [p for p in res.printed if isinstance(p, dict) and "incases" in p][0]
     v.add_tlc("TypedTool(design: Holds(c, Expected(c)) for all cases but the declared lead; export)", res)
-    ncases = counts["incases"] + counts["rincases"] + counts["outcases"]
+    ncases = counts["incases"] + counts["rincases"] + counts["xincases"] + counts["sincases"] + counts["outcases"]
     v.cov["states"] = ncases  # one "state" per abstract case of the decision table
     v.cov["transitions"] = ncases
     allrows = vlib.read_ndjson(os.path.join(wd, "cases.ndjson"))
     schemas = [r for r in allrows if r["kind"] in ("schema", "goschema")]
-    cases = [r for r in allrows if r["kind"] in ("in", "rin", "out")]
+    cases = [r for r in allrows if r["kind"] in ("in", "xin", "rin", "sin", "out")]
     if len(cases) != ncases:
         raise vlib.MachineryError("export has %d cases, TLC counted %d" % (len(cases), ncases))
 
@@ -131,20 +140,20 @@ def run(tier, seed, replay):
     elif tier == "thorough":
         chosen = cases
         exhaustive = True
-        rule = "complete family enumerated by TLC (TypedTool!InCases, RInCases, OutCases)"
+        rule = "complete family enumerated by TLC (TypedTool!InSeq, XInCases, RInCases, SInCases, OutCases)"
     else:
         rnd = random.Random(seed)
         core, rest = [], []
         for c in cases:
-            if c["kind"] == "out" or c["valid"] or deviations(c) <= 1 or present(c) <= 1 \
-                    or (c["kind"] == "rin" and not c["cache"]):
+            if c["kind"] != "in" or c["valid"] or deviations(c) <= 1 or present(c) <= 1:
                 core.append(c)
             else:
                 rest.append(c)
         chosen = core + rnd.sample(rest, min(QUICK_SAMPLE, len(rest)))
         exhaustive = False
         rule = ("all output cases, all valid input cases, all boundary cases (at most one member off the valid base, or at most one "
-                "member present), all reflected-type cases without cache, plus %d seeded samples of the remaining product" % min(QUICK_SAMPLE, len(rest)))
+                "member present), all cases of the other kinds (defaults interacting with other keywords, reflected Go types, "
+                "explicit schemas on struct types, every SchemaCache arrangement), plus %d seeded samples of the remaining product" % min(QUICK_SAMPLE, len(rest)))
     cin = os.path.join(out, "cases.ndjson")
     vlib.write_ndjson(cin, schemas + chosen)
 
@@ -174,7 +183,7 @@ def run(tier, seed, replay):
         if s["kind"] != "goschema":
             continue
         name = ("rin." if s["dir"] == "in" else "rout.") + s["id"]
-        for cached in ("false", "true"):
+        for cached in ("none", "warm", "xfirst"):
             a = adv.get("%s|cache=%s" % (name, cached))
             if a is None:
                 raise vlib.MachineryError("tool %s not advertised" % name)
